@@ -57,6 +57,16 @@ def gen(ctx, n):
         h1 = [[r.choice([0.7, 1.1, 1.5, 2.5]), r.choice([0.01, 0.02]), r.randint(5, 200)] for _ in range(k)]
         h2 = [[r.choice([0.7, 1.1, 1.5, 2.5]), r.choice([0.01, 0.02]), r.randint(5, 200)] for _ in range(k + r.randint(0, 1))]
         cases.append({'kind': 'reuse', 'acc': acc, 'h1': h1, 'h2': h2, 'd1': 1e-5, 'd2': 1e-5, 'mm': 'reuse', 'via': r.choice(['load', 'assign']), 'more': r.choice([0, 3])})
+    # structured re-use: both histories share one (sigma, q) entry and the total number of steps, and the first is much cheaper
+    for s_late in (0.8, 0.9):
+        cases.append({'kind': 'reuse', 'acc': 'prv', 'h1': [[1.1, 0.02, 300], [3.0, 0.02, 1500]], 'h2': [[1.1, 0.02, 300], [s_late, 0.02, 1500]],
+                      'd1': 1e-5, 'd2': 1e-5, 'mm': 'reuse', 'via': 'assign', 'more': 0})
+    for _ in range(max(2, n // 40)):
+        q = r.choice([0.01, 0.02])
+        n1, n2 = r.choice([100, 300]), r.choice([600, 1500])
+        shared = [1.1, q, n1]
+        cases.append({'kind': 'reuse', 'acc': 'prv', 'h1': [shared, [r.choice([2.5, 3.0]), q, n2]], 'h2': [shared, [r.choice([0.8, 0.9]), q, n2]],
+                      'd1': 1e-5, 'd2': 1e-5, 'mm': 'reuse', 'via': r.choice(['load', 'assign']), 'more': 0})
     for _ in range(max(3, n // 15)):
         q = r.choice([0.01, 0.04, 0.1])
         cases.append({'kind': 'cli', 'acc': 'rdp', 'q': q, 's': r.choice([0.8, 1.1, 2.0]), 'n': r.randint(10, 500), 'epochs': r.randint(1, 5), 'd1': 1e-5, 'mm': 'cli'})
